@@ -312,7 +312,10 @@ pub fn rw_chain(r: &R, e: &Expr) -> Option<String> {
         s.push_str(&format!("    {}\n", st));
     }
     s.push_str(&format!("    let {} = {};\n    let mut {}: usize = 0;\n", n, seq.len, i));
-    let loop_attr = "#[verifier::loop_isolation(false)]";
+    let pbefore = spec.opts.get("pbefore").map(|t| format!("proof {{ {} }}\n    ", t)).unwrap_or_default();
+    let loop_attr_s = format!("{}#[verifier::loop_isolation(false)]", pbefore);
+    let loop_attr = loop_attr_s.as_str();
+    let pafter = spec.opts.get("pafter").map(|t| format!("proof {{ {} }}\n    ", t)).unwrap_or_default();
     let cond_all = |g: &Vec<String>, body: String| -> String {
         if g.is_empty() {
             body
@@ -400,7 +403,7 @@ pub fn rw_chain(r: &R, e: &Expr) -> Option<String> {
             }
             let body = closure_body(r, cl);
             let body = if guards.is_empty() { body } else { format!("if ({}) {{ {} }} else {{ {} }}", guards.join(") && ("), body, acc) };
-            s.push_str(&format!("        {} = {};\n        {} = {} + 1;\n    }}\n    {}\n}})", acc, body, i, i, acc));
+            s.push_str(&format!("        {} = {};\n        {} = {} + 1;\n    }}\n    {}{}\n}})", acc, body, i, i, pafter, acc));
         }
         "collect" => {
             let b = pre.clone();
